@@ -269,13 +269,28 @@ func decAllCmd(a []string) string {
 		return "bad-op"
 	}
 	s := &bufStream{r: bytes.NewReader(b)}
-	var parts []string
+	// decode the whole sequence first and look at the records only afterwards: a decoder that hands out memory it reuses for
+	// a later record shows up as an earlier record changing
+	type rec struct {
+		typ byte
+		msg any
+	}
+	var recs []rec
+	tail := ""
 	for i := 0; i <= len(b); i++ {
-		out, good, _ := decodeOne(s)
-		parts = append(parts, out)
-		if !good {
+		typ, msg, err := transfer.VerifReadControlMessage(s)
+		if err != nil {
+			tail = "err " + errKind(err)
 			break
 		}
+		recs = append(recs, rec{typ, msg})
+	}
+	var parts []string
+	for _, r := range recs {
+		parts = append(parts, showRec(r.typ, r.msg))
+	}
+	if tail != "" {
+		parts = append(parts, tail)
 	}
 	return strings.Join(parts, " | ")
 }
